@@ -154,8 +154,8 @@ fn encryptor_layout<const N: usize, const OUT: usize>(aead: AeadAlgorithm) {
     core::mem::forget(mkey);
     core::mem::forget(nonce0);
 }
-aproof!(c12_aead_enc_0, 40, { encryptor_layout::<0, 32>(AeadAlgorithm::Ocb) });
-aproof!(c12_aead_enc_1, 50, { encryptor_layout::<1, 40>(AeadAlgorithm::Ocb) });
+aproof!(c12_aead_enc_0, 70, { encryptor_layout::<0, 32>(AeadAlgorithm::Ocb) });
+aproof!(c12_aead_enc_1, 70, { encryptor_layout::<1, 40>(AeadAlgorithm::Ocb) });
 aproof!(c12_aead_enc_64, 120, { encryptor_layout::<64, 100>(AeadAlgorithm::Gcm) });
 aproof!(c12_aead_enc_65, 130, { encryptor_layout::<65, 120>(AeadAlgorithm::Eax) });
 aproof!(c12_aead_enc_70, 140, { encryptor_layout::<70, 120>(AeadAlgorithm::Ocb) });
